@@ -216,7 +216,11 @@ def find(
                     include,
                     os.path.dirname(e["file"]),
                 )
-                if include_file:
+                # A file marked with #pragma once is read only once per
+                # translation unit, also when it is named by -include.
+                if include_file and file_platform.process_include(
+                    os.path.realpath(include_file),
+                ):
                     state.insert_file(include_file)
                     state.associate(include_file, file_platform)
 
